@@ -122,7 +122,7 @@ func vBufferedOps(S, k int) {
 	vrt.Assert("final-stop:flush-goroutine-exited", vrt.LiveGoroutines() == 0)
 }
 
-//verif: prop=C12,C13 bounds="Size S in 1..3, 3 operations from {Write(0..S+2 symbolic bytes), Sync, tick, Stop}; flush goroutine scheduled at every synchronisation point (preemption bound 2)"
+//verif: prop=C12 bounds="Size S in 1..3, 3 operations from {Write(0..S+2 symbolic bytes), Sync, tick, Stop}; flush goroutine scheduled at every synchronisation point (preemption bound 2)"
 func VC12Ops3() { vBufferedOps(vrt.IntRange("S", 1, 3), 3) }
 
 //verif: prop=C12 tier=thorough bounds="Size S in 1..4, 4 operations"
